@@ -284,6 +284,36 @@ func (c *c06Case) Run(ctx *core.Ctx) {
 		expectText("span", []string{wantN}, "inner-component")
 		expectText("em", []string{wantM}, "middle-component")
 		trig = c.Var
+	case "shadow": // the component has a variable named like the includer's variable that the content reads
+		var comp, incAttrs string
+		n := 1
+		switch c.Var {
+		case "prop":
+			comp, incAttrs = `<div class="c"><em><slot>FB</slot></em><u>{{ v }}</u></div>`, ` v="COMP"`
+		case "boundprop":
+			comp, incAttrs = `<div class="c"><em><slot>FB</slot></em><u>{{ v }}</u></div>`, ` :v="pv"`
+		case "frontmatter":
+			comp = "---\nv: COMP\n---\n" + `<div class="c"><em><slot>FB</slot></em><u>{{ v }}</u></div>`
+		case "loopvar":
+			comp, n = `<div class="c"><em v-for="v in items"><slot>FB</slot></em></div>`, 2
+		case "tmplvar":
+			comp = `<div class="c"><template :v="'COMP'"></template><em><slot>FB</slot></em><u>{{ v }}</u></div>`
+		}
+		content := `<b>{{ v }}</b>`
+		switch c.Form {
+		case "vslot":
+			content = `<template v-slot><b>{{ v }}</b></template>`
+		case "attr":
+			content = `<b :title="v">{{ v }}</b>`
+		}
+		files = Files{"c.vuego": comp, "page.vuego": `<template include="c.vuego"` + incAttrs + `>` + content + `</template><i>{{ v }}</i>`}
+		var want []string
+		for i := 0; i < n; i++ {
+			want = append(want, "IV")
+		}
+		expectText("em", want, "includer-variable-shadowed-by-component")
+		expectText("i", []string{"IV"}, "after")
+		trig = c.Var + "/" + c.Form
 	case "case": // slot names written with capital letters (attribute keys are lower-cased by the HTML parser)
 		comp := `<div class="c"><header><slot name="pageTitle">FBH</slot></header><footer><slot name="Foot">FBF</slot></footer></div>`
 		var content, wh, wf string
@@ -345,7 +375,7 @@ func init() {
 		ID:        "C06",
 		Level:     "exploration",
 		CPUBudget: 10,
-		Rule: "component with header/default/footer slots (fallback on two of them) used by includers supplying every subset in every form (v-slot:, #, plain children, v-slot, v-slot:default) x 4 content kinds (static, {{ }} of an includer variable, :attr, text) x 4 instance arrangements; scoped slots (4 components incl. slot in v-for) x {named var, destructured, fallback, plain}; same slot used twice; nested components (5 arrangements); layout-inherited slots; slot names written with capital letters; " +
+		Rule: "component with header/default/footer slots (fallback on two of them) used by includers supplying every subset in every form (v-slot:, #, plain children, v-slot, v-slot:default) x 4 content kinds (static, {{ }} of an includer variable, :attr, text) x 4 instance arrangements; scoped slots (4 components incl. slot in v-for) x {named var, destructured, fallback, plain}; same slot used twice; nested components (5 arrangements); layout-inherited slots; slot names written with capital letters; components whose prop / front-matter key / loop variable / template variable has the name of the includer's variable that the content reads; " +
 			"every case also right after a render (on another engine) that passes content for all those slot names to a component and through a layout to the components the layout includes; " +
 			"oracle: expected normalised text (and bound attributes) at every slot position. non-trivial = all",
 		Bounds:      map[string]string{"quick": "full catalogue product, nesting depth 2, <=2 instances", "thorough": "same"},
@@ -396,6 +426,11 @@ func init() {
 			emit(&c06Case{Part: "layout", Var: "none", Kind: "static"})
 			for _, f := range []string{"hash", "vslot", "lower", "none"} {
 				emit(&c06Case{Part: "case", Form: f})
+			}
+			for _, v := range []string{"prop", "boundprop", "frontmatter", "loopvar", "tmplvar"} {
+				for _, f := range []string{"plain", "vslot", "attr"} {
+					emit(&c06Case{Part: "shadow", Var: v, Form: f})
+				}
 			}
 		},
 	})
